@@ -191,8 +191,9 @@ void harness(void)
   VP_ASSERT(C16, r != REPROC_ETIMEDOUT || (fail_at >= 0 && fail_at < ncalls) ||
                      (o.deadline != 0 && vp_T >= p->deadline),
             "drain reports a timeout although the deadline has not expired");
-  VP_ASSERT(C16, !(fail_at < 0 || fail_at >= ncalls) || o.deadline == 0 || r != 0 || vp_T <= p->deadline,
-            "drain goes on after the deadline instead of reporting the timeout");
+  /* an expired deadline is reported before anything else: drain cannot complete at or after it */
+  VP_ASSERT(C16, !(fail_at < 0 || fail_at >= ncalls) || o.deadline == 0 || r != 0 || vp_T < p->deadline,
+            "drain goes on at or after the deadline instead of reporting the timeout");
   int rnull = reproc_drain(NULL, so, se);
   VP_ASSERT(C16, rnull == REPROC_EINVAL, "drain(NULL) is not rejected");
   VP_COVER(r == 0 && ncalls >= 5, "both streams drained to the end");
